@@ -2,6 +2,7 @@
 
 The executor manipulates these wrappers; `to_val` injects any of them into the universal sort
 `Val`, the typed wrappers avoid case splits where the static kind is known from a contract."""
+import z3
 from .sorts import *
 import itertools
 
@@ -207,6 +208,11 @@ def to_val(pv, st=None):
         k = mkFS(pv.arr)
         if st is not None: st.assume(fs_c(k) == pv.arr)
         return Val.FS(k)
+    if isinstance(pv, (PSet, PMap)):
+        # a typed container (set of objects / of names, map) used where only an arbitrary value is modelled -- e.g. kept inside a tuple:
+        # an opaque object with its own identity (its content is not visible through that reference: over-approximation)
+        if getattr(pv, '_ident', None) is None: pv._ident = fresh('container', IntSort())
+        return Val.Opq(pv._ident)
     raise Unsupported(f'to_val({type(pv).__name__})')
 
 
@@ -269,7 +275,17 @@ def as_kind(pv, kind, st=None):
         # a bound method of the object itself kept in one of its fields (strategy selection): identified by its name
         return StringVal('method:' + pv.name)
     if isinstance(pv, PDict) and t == 'dict': return pv.arr
+    if isinstance(pv, PSet) and t in ('refset', 'valset', 'strset') and not pv.arr.sort().eq(kind.sort()) and z3.is_K(pv.arr) and z3.is_false(pv.arr.arg(0)):
+        return K(kind.sort().domain(), BoolVal(False))          # the literal set(): empty in every element type
+    if isinstance(pv, PDict) and t == 'map' and z3.is_K(pv.arr):
+        return K(kind.sort().domain(), OptOf(kind.v.sort()).Absent)      # the literal {}: empty whatever the key/value kinds
     if isinstance(pv, PSet) and t in ('refset', 'valset', 'strset'): return pv.arr
+    if isinstance(pv, PDict) and t == 'map' and kind.k.tag == 'str':
+        if kind.v.tag == 'val': return pv.arr
+        if kind.v.tag == 'map' and kind.v.sort().eq(DictS):
+            # a str-keyed dict of str-keyed dicts: the inner dict values are unfolded into their content
+            O2 = OptOf(DictS); kq = Const('k!cv', StringSort())
+            return z3.Lambda([kq], If(Opt.is_Some(pv.arr[kq]), O2.Some(dict_c(Val.dk(Opt.v(pv.arr[kq])))), O2.Absent))
     if isinstance(pv, PMap) and t == 'map': return pv.arr
     raise Unsupported(f'cannot use {pv!r} as kind {kind}')
 
